@@ -4,6 +4,9 @@ use crate::{ExecutionError, Expression};
 use cel_parser::ast::{operators, EntryExpr, Expr};
 use cel_parser::reference::Val;
 use std::cmp::Ordering;
+#[cfg(kani)]
+use crate::verif_map::HashMap;
+#[cfg(not(kani))]
 use std::collections::HashMap;
 use std::convert::{Infallible, TryFrom, TryInto};
 use std::fmt::{Display, Formatter};
